@@ -525,7 +525,10 @@ def _items_of_small_length(eng, seqv):
         return None
     for k in range(SMALL_LENGTH_CAP + 1):
         if eng.branch(eng.sbool(nz == k)):
-            return [getter(Sym(z3.IntVal(j), "int")) for j in range(k)]
+            items = [getter(Sym(z3.IntVal(j), "int")) for j in range(k)]
+            if isinstance(seqv, Iter):  # the loop takes its items out of a one-shot iterator
+                seqv.consumed = True
+            return items
     raise PathEnd()  # unreachable: the length is confined to 0..cap
 
 
@@ -541,13 +544,15 @@ def exec_for(eng, s, fr):
             items = _items_of_small_length(eng, seqv) if eng.spec_mode == 0 else None
             if items is None:
                 raise Unsupported(f"for loop #{o} in {_fn_label(eng, fr)} iterates a symbolic sequence and has no invariant ({e})")
-        for x in items:
+        for j, x in enumerate(items):
             eng.assign(s.target, x, fr)
             try:
                 eng.exec_block(s.body, fr)
             except ContinueSig:
                 continue
             except BreakSig:
+                if isinstance(seqv, Iter) and seqv.consumed and j + 1 < len(items):  # a one-shot iterator keeps what the loop did not take
+                    seqv.seq, seqv.consumed = PList(list(items[j + 1:])), False
                 return
         eng.exec_block(s.orelse, fr)
         return
@@ -591,6 +596,8 @@ def exec_for(eng, s, fr):
         except BreakSig:
             if sink is not None:
                 raise Unsupported("break inside a yielding invariant-cut loop")
+            if isinstance(seqv, Iter) and not seqv.consumed:  # a one-shot iterator keeps what the loop did not take
+                eng.models.iter_advance(eng, seqv, k.z + 1)
             return
         if sink is not None:
             for lab, fn in spec["yields"]:
